@@ -325,6 +325,7 @@ class Interp:
 
     def st_For(self, st):
         it = self.eval(st.iter)
+        self.st.effects.append(("loop-iter", it, st.lineno))
         seq = self.models.iterate(it, st)
         if seq is not None:           # concrete sequence
             broke = False
